@@ -423,7 +423,24 @@ func TestC05(t *testing.T) {
 	rec := ev.New(t, "C05")
 	rec.Rule("same generated churn + client histories as C03 (concurrent joins/leaves with concurrent single-writer clients, mixed backends). After the quiet period every remaining node's OWN store is listed (RangeKeys(0,0) on the provider the harness handed to the node) and every key found must hash into (predecessor, self] of the true ring; consequently no key is on two nodes. Non-trivial: at least two nodes hold data and at least one key transfer moved at least one key. Distinct = distinct plans.")
 	rec.Assume("true ring = members by observed outcome; rings that do not converge are C02's business (inconclusive)")
-	backs := ev.Pick([]int{0, 0, 0, 0, 0, 1, 2}, []int{0, 0, 1, 2})
+	// scenario tier: a node restarts with its old identity and its old store after the ring
+	// has changed, once per backend
+	for b, name := range []string{"memory", "aof", "sqlite"} {
+		if p := restartWithOldStore(t, b); p != "" {
+			if len(p) > 13 && p[:13] == "precondition:" {
+				rec.Inconclusive("scenario-precondition")
+				t.Logf("restart scenario (%s): %s", name, p)
+			} else {
+				rec.Fail(t, "restarted-node-holds-keys-it-does-not-own", map[string]any{"schedule": "ring {1<<44, 2<<44, 3<<44}, 60 keys; 2<<44 (" + name + " store) leaves; 3<<43 joins into its former range, 30 more keys; 2<<44 restarts with the old store and joins again", "problem": p}, "%s", p)
+			}
+		} else {
+			n := name
+			rec.Case(true, "scenario:restart-with-old-store:"+n, func() any {
+				return map[string]any{"scenario": "leave, ring changes, restart with old identity and old store", "backend": n}
+			}, "scenario:restart-with-old-store")
+		}
+	}
+	backs := ev.Pick([]int{0, 0, 0, 1, 2, 2}, []int{0, 0, 1, 2})
 	ev.RapidCheck(t, 30, 640, func(t *rapid.T) {
 		p := genDataPlan(ev.Pick(4, 6), backs).Draw(t, "plan")
 		r, res, ok, cleanup := runDataChurn(t, rec, p)
